@@ -129,4 +129,37 @@ PROGRAM Main\nVAR r1 : INT; r2 : INT; r3 : INT; a : Acc; END_VAR\nr1 := Foo(val 
         cycles: 1,
         expect: &[(0, "Main.r1", "INT#Int(11)"), (0, "Main.r2", "INT#Int(8)"), (0, "Main.r3", "INT#Int(5)")],
     },
+    Cell {
+        name: "fb-param-initial-values",
+        text: "FUNCTION_BLOCK Init\nVAR_INPUT i : INT := INT#3; END_VAR\nVAR_OUTPUT o : INT := INT#4; END_VAR\nVAR n : INT := INT#7; END_VAR\nEND_FUNCTION_BLOCK\n\
+FUNCTION_BLOCK Outs\nVAR_INPUT i : INT := INT#3; END_VAR\nVAR_OUTPUT o1 : INT; o2 : DINT; END_VAR\no1 := i + INT#1;\no2 := DINT#2 * o1;\nEND_FUNCTION_BLOCK\n\
+PROGRAM Main\nVAR f : Init; g : Outs; a : INT; b : INT; x : INT; y : DINT; END_VAR\na := f.i;\nb := f.o;\ng(o1 => x);\ng(i := INT#10);\ng(o2 => y);\nEND_PROGRAM\n",
+        cycles: 1,
+        expect: &[(0, "Main.a", "INT#Int(3)"), (0, "Main.b", "INT#Int(4)"), (0, "Main.f.n", "INT#Int(7)"), (0, "Main.x", "INT#Int(4)"), (0, "Main.y", "DINT#DInt(22)")],
+    },
+    Cell {
+        name: "defaults-and-output-bindings",
+        text: "TYPE Rec : STRUCT fa : INT; fb : DINT; END_STRUCT END_TYPE\n\
+FUNCTION Dflt : INT\nVAR_INPUT a : INT := INT#5; b : INT := INT#7; c : INT; END_VAR\nDflt := a * INT#100 + b * INT#10 + c;\nEND_FUNCTION\n\
+FUNCTION_BLOCK Outs\nVAR_INPUT i : INT; END_VAR\nVAR_OUTPUT o1 : INT; o2 : DINT; END_VAR\no1 := i + INT#1;\no2 := DINT#2 * o1;\nEND_FUNCTION_BLOCK\n\
+FUNCTION Two : INT\nVAR_INPUT p : INT; END_VAR\nVAR_OUTPUT q : INT; END_VAR\nq := p * INT#2;\nTwo := p + INT#1;\nEND_FUNCTION\n\
+PROGRAM Main\nVAR\n  r1 : INT; r2 : INT; r3 : INT; r4 : INT; r5 : INT;\n  arr : ARRAY[0..2] OF INT; rec : Rec; k : INT := 2;\n  f : Outs; g : Outs; x : INT; y : DINT;\nEND_VAR\n\
+r1 := Dflt();\nr2 := Dflt(b := INT#1);\nr3 := Dflt(c := INT#9, a := INT#2);\nr4 := Dflt(INT#1, INT#2, INT#3);\n\
+f(i := INT#3, o1 => arr[k], o2 => rec.fb);\ng(i := INT#10, o1 => x);\ng(o2 => y);\nr5 := Two(p := INT#4, q => arr[0]);\nEND_PROGRAM\n",
+        cycles: 1,
+        expect: &[
+            (0, "Main.r1", "INT#Int(570)"),
+            (0, "Main.r2", "INT#Int(510)"),
+            (0, "Main.r3", "INT#Int(279)"),
+            (0, "Main.r4", "INT#Int(123)"),
+            (0, "Main.r5", "INT#Int(5)"),
+            (0, "Main.arr[0]", "INT#Int(8)"),
+            (0, "Main.arr[1]", "INT#Int(0)"),
+            (0, "Main.arr[2]", "INT#Int(4)"),
+            (0, "Main.rec.fb", "DINT#DInt(8)"),
+            (0, "Main.rec.fa", "INT#Int(0)"),
+            (0, "Main.x", "INT#Int(11)"),
+            (0, "Main.y", "DINT#DInt(22)"),
+        ],
+    },
 ];
